@@ -50,6 +50,8 @@ use libp2p_swarm::{
 use smallvec::SmallVec;
 
 use self::iface::InterfaceState;
+#[cfg(libp2p_verif)]
+pub(crate) use self::iface::verif as iface_verif;
 use crate::{
     Config,
     behaviour::{socket::AsyncSocket, timer::Builder},
